@@ -56,6 +56,29 @@ def line_of(desc):
     return typed_line(desc["f"]) if desc["kind"] == "typed" else untyped_line(desc["cols"])
 
 
+# ------------------------------------------------------ FASTA index files
+def write_fai(names):
+    """a .fai file (name, length, offset, line bases, line width) under the check's work directory"""
+    import os
+    import tempfile
+
+    os.makedirs("/verif/work", exist_ok=True)
+    fd, path = tempfile.mkstemp(suffix=".fai", dir="/verif/work")
+    with os.fdopen(fd, "w") as f:
+        for i, n in enumerate(names):
+            f.write("%s\t%d\t%d\t60\t61\n" % (n, 1000 + i, 7 + 1100 * i))
+    return path
+
+
+def remove_file(path):
+    import os
+
+    try:
+        os.remove(path)
+    except OSError:
+        pass
+
+
 # ------------------------------------------------------ python int() grammar
 _INT_RE = re.compile(r"^[ \t\n\r\x0b\x0c]*[+-]?[0-9]+(_[0-9]+)*[ \t\n\r\x0b\x0c]*$")
 
